@@ -102,6 +102,13 @@ def call_find(tree, fs, emb, s, e, filters, end_variant=0, **kw):
             end = emb.t(e - 1) + dt.timedelta(microseconds=1)   # probes the `end -= 1us` step from below
     if start is not None and end_variant == 1 and s > 0:
         start = start - dt.timedelta(seconds=1)             # t1 >= s - eps  <=>  t1 >= s
+    if end_variant == 3:
+        # half a second AFTER the previous tick (a start / end with a non-zero microsecond field): coverage bounds sit on
+        # ticks, so  t1 >= t(s-1) + eps  <=>  t1 >= t(s)  and  t0 < t(e-1) + eps  <=>  t0 < t(e)
+        if start is not None and emb.t(s - 1) is not None:
+            start = emb.t(s - 1) + dt.timedelta(microseconds=500000)
+        if end is not None and emb.t(e - 1) is not None:
+            end = emb.t(e - 1) + dt.timedelta(microseconds=500000)
     try:
         return list(fs.find(start, end, filters=filters, **kw))
     except NoFilesError:
@@ -128,7 +135,7 @@ def replay_population(col, item):
             fs.exclude_files([path_of(i) for i in xn])
             fs.exclude_times([(emb.t(a), emb.t(b)) for a, b in xp] or None)
             flt = filters_of(white, black)
-            variant = n % 3
+            variant = n % 4
             abstract = {"F": case["F"], "query": {"s": s, "e": e, "xnames": xn, "xperiods": xp,
                                                    "white": white, "black": black}}
             concrete = {"embedding": emb_name, "layout": layout, "style": style, "template": tree.tmpl,
